@@ -473,4 +473,315 @@ theorem lookup_toWMap (cid : Nat) : ∀ (ps : List (Int × Rat)),
       rw [b1, b2]
       exact ih
 
+
+/-! ### vertical metrics `W2` -/
+
+abbrev Num3 := (Rat × Bool) × (Rat × Bool) × (Rat × Bool)
+
+def toW2Map (ps : List (Int × (Rat × Rat × Rat))) : W2Map :=
+  ps.map (fun e => ((e.1 : Rat), (WVal.num e.2.1, WVal.num e.2.2.1, WVal.num e.2.2.2)))
+
+theorem toW2Map_append (a b : List (Int × (Rat × Rat × Rat))) : toW2Map (a ++ b) = toW2Map a ++ toW2Map b := by
+  simp [toW2Map]
+
+theorem chop3W_flat : ∀ (ws : List Num3),
+    chop3W (ws.flatMap (fun w => [WVal.num w.1.1, WVal.num w.2.1.1, WVal.num w.2.2.1]))
+      = ws.map (fun w => (WVal.num w.1.1, WVal.num w.2.1.1, WVal.num w.2.2.1))
+  | [] => by simp [chop3W]
+  | w :: ws => by
+    simp only [List.flatMap_cons, List.cons_append, List.nil_append, chop3W, List.map_cons]
+    rw [chop3W_flat ws]
+
+theorem putList2_eq (c : Nat) : ∀ (ws : List Num3) (i : Nat) (m : W2Map),
+    putList2 (c : Rat) i (ws.map (fun w => (WVal.num w.1.1, WVal.num w.2.1.1, WVal.num w.2.2.1))) m
+      = toW2Map (list2Pairs c i ws).reverse ++ m
+  | [], i, m => by simp [putList2, list2Pairs, toW2Map]
+  | w :: ws, i, m => by
+    simp only [List.map_cons, putList2, list2Pairs, List.reverse_cons, toW2Map_append]
+    rw [putList2_eq c ws (i + 1)]
+    simp only [toW2Map, List.map_cons, List.map_nil, List.append_assoc, List.cons_append, List.nil_append,
+      Rat.intCast_natCast, Rat.natCast_add]
+
+theorem putRange_gen {β : Type} (c1 : Int) (v : β) : ∀ (n i : Nat) (m : List (Rat × β)),
+    putRange c1 v n i m =
+      ((List.range n).map (fun (j : Nat) => (((c1 + ((i + j : Nat) : Int) : Int) : Rat), v))).reverse ++ m
+  | 0, i, m => by simp [putRange]
+  | n + 1, i, m => by
+    rw [putRange, putRange_gen c1 v n (i + 1), range_succ_map]
+    simp only [List.reverse_cons, List.append_assoc, Nat.add_zero, List.cons_append, List.nil_append]
+    congr 2
+    apply List.map_congr_left
+    intro j _
+    have : i + 1 + j = i + (j + 1) := by omega
+    rw [this]
+
+theorem widths2_entry (e : W2Entry) (rest : List WElem) (m : W2Map) :
+    getWidths2Aux (renderW2Entry e ++ rest) (m, []) =
+      getWidths2Aux rest (toW2Map (w2entryPairs e).reverse ++ m, []) := by
+  cases e with
+  | list c ws =>
+    simp only [renderW2Entry, List.cons_append, List.nil_append, getWidths2Aux, widths2Step,
+      List.getLast?_singleton, w2entryPairs, chop3W_flat]
+    rw [putList2_eq]
+  | range c1 c2 w =>
+    simp only [renderW2Entry, List.cons_append, List.nil_append, getWidths2Aux, widths2Step, and_self, if_true,
+      Rat.floor_intCast, w2entryPairs]
+    rw [putRange_gen]
+    simp [toW2Map, Function.comp_def]
+
+theorem widths2_fold : ∀ (es : List W2Entry) (m : W2Map),
+    getWidths2Aux (renderW2 es) (m, []) = .ok (toW2Map (specWidth2Pairs es).reverse ++ m)
+  | [], m => by simp [renderW2, specWidth2Pairs, toW2Map, getWidths2Aux]
+  | e :: rest, m => by
+    have ih := widths2_fold rest (toW2Map (w2entryPairs e).reverse ++ m)
+    simp only [renderW2, specWidth2Pairs, List.flatMap_cons] at ih ⊢
+    rw [widths2_entry e _ m, ih]
+    simp [toW2Map_append]
+
+theorem lookup_toW2Map (cid : Nat) : ∀ (ps : List (Int × (Rat × Rat × Rat))),
+    (toW2Map ps).lookup (cid : Rat) =
+      (ps.lookup (cid : Int)).map (fun w => (WVal.num w.1, WVal.num w.2.1, WVal.num w.2.2))
+  | [] => by simp [toW2Map]
+  | (k, w) :: rest => by
+    have ih := lookup_toW2Map cid rest
+    simp only [toW2Map, List.map_cons, List.lookup_cons] at ih ⊢
+    by_cases hk : (cid : Int) = k
+    · subst hk
+      simp [Rat.intCast_natCast]
+    · have hne : ¬ ((cid : Rat) = (k : Rat)) := by
+        intro h
+        apply hk
+        rw [← Rat.intCast_natCast] at h
+        exact Rat.intCast_inj.mp h
+      have b1 : ((cid : Rat) == (k : Rat)) = false := by simpa using hne
+      have b2 : ((cid : Int) == k) = false := by simpa using hk
+      rw [b1, b2]
+      exact ih
+
+
+/-! ### bfrange increment: ISO's "last byte" wording vs the carry form -/
+
+theorem nunpack_snoc : ∀ (t : Bytes) (b : UInt8), nunpack (t ++ [b]) = nunpack t * 256 + b.toNat
+  | [], b => by simp [nunpack]
+  | a :: t, b => by
+    simp only [List.cons_append, nunpack, List.length_append, List.length_cons, List.length_nil, Nat.zero_add,
+      nunpack_snoc t b, Nat.pow_succ, Nat.add_mul, Nat.mul_assoc, Nat.add_assoc]
+
+theorem natToBE_snoc (n x b k : Nat) (h : b + k < 256) :
+    natToBE (n + 1) (x * 256 + b + k) = natToBE n x ++ [UInt8.ofNat (b + k)] := by
+  have h1 : (x * 256 + b + k) / 256 = x := by omega
+  have h2 : (x * 256 + b + k) % 256 = b + k := by omega
+  simp [natToBE, h1, h2]
+
+theorem natToBE_nunpack : ∀ (n : Nat) (t : Bytes), t.length = n → natToBE n (nunpack t) = t
+  | 0, t, h => by
+    have : t = [] := List.length_eq_zero_iff.mp h
+    subst this; simp [natToBE]
+  | n + 1, t, h => by
+    have hne : t ≠ [] := by intro h0; subst h0; simp at h
+    obtain ⟨b, hb⟩ : ∃ b, t.getLast? = some b := by
+      cases hq : t.getLast? with
+      | none => exact absurd (List.getLast?_eq_none_iff.mp hq) hne
+      | some b => exact ⟨b, rfl⟩
+    obtain ⟨init, rfl⟩ := List.getLast?_eq_some_iff.mp hb
+    have hl : init.length = n := by simpa using h
+    rw [nunpack_snoc]
+    have := natToBE_snoc n (nunpack init) b.toNat 0 (by have := b.toNat_lt; omega)
+    simp only [Nat.add_zero] at this
+    rw [this, natToBE_nunpack n init hl]
+    simp
+
+theorem incBE_eq_incLast (d x : Bytes) (k : Nat) (h : incLast d k = some x) : incBE d k = x := by
+  unfold incLast at h
+  cases hq : d.getLast? with
+  | none => simp [hq] at h
+  | some b =>
+    simp only [hq] at h
+    by_cases hb : b.toNat + k < 256
+    · simp only [hb, if_true, Option.some.injEq] at h
+      subst h
+      obtain ⟨init, rfl⟩ := List.getLast?_eq_some_iff.mp hq
+      unfold incBE takeLast dropLast4
+      simp only [show (4 : Nat) ≠ 0 by decide, if_false, List.length_append, List.length_cons, List.length_nil,
+        Nat.zero_add]
+      have e1 : init.length + 1 - 4 = init.length - 3 := by omega
+      rw [e1, List.drop_append_of_le_length (by omega), List.take_append_of_le_length (by omega)]
+      rw [nunpack_snoc, List.length_append]
+      simp only [List.length_cons, List.length_nil, Nat.zero_add]
+      rw [natToBE_snoc _ _ _ _ hb, natToBE_nunpack _ _ rfl]
+      rw [← List.append_assoc, List.take_append_drop]
+      simp [List.dropLast_concat]
+    · simp [hb] at h
+
+
+/-! ### tries built by `add_code2cid` -/
+
+theorem lookup_dictSet_self : ∀ (d : TDict) (k : UInt8) (v : Trie), (dictSet d k v).lookup k = some v
+  | [], k, v => by simp [dictSet, List.lookup]
+  | (k', v') :: rest, k, v => by
+    unfold dictSet
+    by_cases h : k' = k
+    · subst h; simp [List.lookup]
+    · have h' : (k == k') = false := by simpa using fun e : k = k' => h e.symm
+      simp only [beq_iff_eq, h, if_false, List.lookup_cons, h']
+      exact lookup_dictSet_self rest k v
+
+theorem lookup_dictSet_other : ∀ (d : TDict) (k k2 : UInt8) (v : Trie), k2 ≠ k →
+    (dictSet d k v).lookup k2 = d.lookup k2
+  | [], k, k2, v, h => by
+    have : (k2 == k) = false := by simpa using h
+    simp [dictSet, List.lookup, this]
+  | (k', v') :: rest, k, k2, v, h => by
+    unfold dictSet
+    by_cases hk : k' = k
+    · subst hk
+      have : (k2 == k') = false := by simpa using h
+      simp [List.lookup_cons, this]
+    · simp only [beq_iff_eq, hk, if_false, List.lookup_cons]
+      rw [lookup_dictSet_other rest k k2 v h]
+
+/-- After `add_code2cid(code, cid)` succeeds, `code` is a code of the CMap with that CID. -/
+theorem walk_insert_self : ∀ (c : Bytes) (d d' : TDict) (cid : Nat),
+    trieInsert d c cid = .ok d' → walk d' c = some (.leaf cid)
+  | [], d, d', cid, h => by simp [trieInsert] at h
+  | [b], d, d', cid, h => by
+    simp only [trieInsert, Except.ok.injEq] at h
+    subst h
+    simp [walk, lookup_dictSet_self]
+  | b :: b2 :: rest, d, d', cid, h => by
+    simp only [trieInsert] at h
+    cases hl : d.lookup b with
+    | none =>
+      simp only [hl] at h
+      cases hi : trieInsert [] (b2 :: rest) cid with
+      | error e => simp [hi] at h
+      | ok t =>
+        simp only [hi, Except.ok.injEq] at h
+        subst h
+        simp only [walk, lookup_dictSet_self]
+        exact walk_insert_self (b2 :: rest) [] t cid hi
+    | some tr =>
+      cases tr with
+      | leaf n => simp [hl] at h
+      | node dn =>
+        simp only [hl] at h
+        cases hi : trieInsert dn (b2 :: rest) cid with
+        | error e => simp [hi] at h
+        | ok t =>
+          simp only [hi, Except.ok.injEq] at h
+          subst h
+          simp only [walk, lookup_dictSet_self]
+          exact walk_insert_self (b2 :: rest) dn t cid hi
+
+
+theorem walk_nil_cons (b : UInt8) (r : Bytes) : walk [] (b :: r) = none := by
+  simp [walk, List.lookup]
+
+/-- `add_code2cid(code, cid)` does not change what the CMap says about any byte sequence that is neither a
+prefix nor an extension of `code`. -/
+theorem walk_insert_other : ∀ (c : Bytes) (d d' : TDict) (cid : Nat) (c2 : Bytes),
+    trieInsert d c cid = .ok d' → ¬ c <+: c2 → ¬ c2 <+: c → walk d' c2 = walk d c2
+  | [], d, d', cid, c2, h, _, _ => by simp [trieInsert] at h
+  | _ :: _, d, d', cid, [], _, _, h2 => absurd List.nil_prefix h2
+  | [b], d, d', cid, b' :: r2, h, h1, _ => by
+    simp only [trieInsert, Except.ok.injEq] at h
+    subst h
+    have hne : b' ≠ b := by
+      intro e; subst e
+      exact h1 (List.cons_prefix_cons.mpr ⟨rfl, List.nil_prefix⟩)
+    simp only [walk, lookup_dictSet_other _ _ _ _ hne]
+  | b :: b2 :: rest, d, d', cid, b' :: r2, h, h1, h2 => by
+    by_cases hb : b' = b
+    · subst hb
+      have h1' : ¬ (b2 :: rest) <+: r2 := fun hp => h1 (List.cons_prefix_cons.mpr ⟨rfl, hp⟩)
+      have h2' : ¬ r2 <+: (b2 :: rest) := fun hp => h2 (List.cons_prefix_cons.mpr ⟨rfl, hp⟩)
+      simp only [trieInsert] at h
+      cases hl : d.lookup b' with
+      | none =>
+        simp only [hl] at h
+        cases hi : trieInsert [] (b2 :: rest) cid with
+        | error e => simp [hi] at h
+        | ok t =>
+          simp only [hi, Except.ok.injEq] at h
+          subst h
+          simp only [walk, lookup_dictSet_self, hl]
+          rw [walk_insert_other (b2 :: rest) [] t cid r2 hi h1' h2']
+          cases r2 with
+          | nil => exact absurd List.nil_prefix h2'
+          | cons x xs => exact walk_nil_cons x xs
+      | some tr =>
+        cases tr with
+        | leaf n => simp [hl] at h
+        | node dn =>
+          simp only [hl] at h
+          cases hi : trieInsert dn (b2 :: rest) cid with
+          | error e => simp [hi] at h
+          | ok t =>
+            simp only [hi, Except.ok.injEq] at h
+            subst h
+            simp only [walk, lookup_dictSet_self, hl]
+            exact walk_insert_other (b2 :: rest) dn t cid r2 hi h1' h2'
+    · simp only [trieInsert] at h
+      have key : ∀ (v : Trie), walk (dictSet d b v) (b' :: r2) = walk d (b' :: r2) := by
+        intro v
+        simp only [walk, lookup_dictSet_other _ _ _ _ hb]
+      cases hl : d.lookup b with
+      | none =>
+        simp only [hl] at h
+        cases hi : trieInsert [] (b2 :: rest) cid with
+        | error e => simp [hi] at h
+        | ok t =>
+          simp only [hi, Except.ok.injEq] at h
+          subst h
+          exact key _
+      | some tr =>
+        cases tr with
+        | leaf n => simp [hl] at h
+        | node dn =>
+          simp only [hl] at h
+          cases hi : trieInsert dn (b2 :: rest) cid with
+          | error e => simp [hi] at h
+          | ok t =>
+            simp only [hi, Except.ok.injEq] at h
+            subst h
+            exact key _
+
+
+/-- `add_code2cid` for every entry of a code table, in order. -/
+def buildTrie : List (Bytes × Nat) → TDict → Except Err TDict
+  | [], d => .ok d
+  | e :: rest, d =>
+    match trieInsert d e.1 e.2 with
+    | .ok d' => buildTrie rest d'
+    | .error err => .error err
+
+/-- No code of the table is a prefix of another one (codespace ranges guarantee this for CMaps). -/
+def PrefixFree (tab : List (Bytes × Nat)) : Prop :=
+  tab.Pairwise (fun a b => ¬ a.1 <+: b.1 ∧ ¬ b.1 <+: a.1)
+
+theorem buildTrie_walk : ∀ (tab : List (Bytes × Nat)) (d t : TDict), PrefixFree tab → buildTrie tab d = .ok t →
+    (∀ e ∈ tab, walk t e.1 = some (.leaf e.2)) ∧
+    (∀ c2 : Bytes, (∀ e ∈ tab, ¬ e.1 <+: c2 ∧ ¬ c2 <+: e.1) → walk t c2 = walk d c2)
+  | [], d, t, _, h => by
+    simp only [buildTrie, Except.ok.injEq] at h
+    subst h
+    simp
+  | e :: rest, d, t, hp, h => by
+    simp only [buildTrie] at h
+    cases hi : trieInsert d e.1 e.2 with
+    | error err => simp [hi] at h
+    | ok d1 =>
+      simp only [hi] at h
+      have hp' := List.pairwise_cons.mp hp
+      obtain ⟨ih1, ih2⟩ := buildTrie_walk rest d1 t hp'.2 h
+      constructor
+      · intro x hx
+        rcases List.mem_cons.mp hx with rfl | hx
+        · rw [ih2 x.1 (fun y hy => ⟨(hp'.1 y hy).2, (hp'.1 y hy).1⟩)]
+          exact walk_insert_self x.1 d d1 x.2 hi
+        · exact ih1 x hx
+      · intro c2 hc
+        rw [ih2 c2 (fun y hy => hc y (List.mem_cons_of_mem _ hy))]
+        exact walk_insert_other e.1 d d1 e.2 c2 hi (hc e (by simp)).1 (hc e (by simp)).2
+
 end PdfVerif.CIDFontLemmas
